@@ -1161,6 +1161,28 @@ impl Program {
         Ok(())
     }
 
+    /// Drops the transform list of any frame whose transforms no longer apply to its channel layout
+    /// (late adjustments of a random frame — safe-mode rules, VarDCT conversion — can change channel
+    /// dimensions after the transforms were validated).
+    pub fn fix_transforms(&mut self) {
+        let n = self.frames.len();
+        for i in 0..n + self.preview.is_some() as usize {
+            let f = if i < n { self.frames[i].clone() } else { (**self.preview.as_ref().unwrap()).clone() };
+            let base = self.base_channels(&f);
+            let ok = match apply_transforms(&base, &f.modular.transforms) {
+                Some((chs, nb_meta)) => chs.iter().all(|c| c.w > 0 && c.h > 0) && section_layout(self, &f, &chs, nb_meta).is_some(),
+                None => false,
+            };
+            if !ok {
+                if i < n {
+                    self.frames[i].modular.transforms.clear();
+                } else {
+                    self.preview.as_mut().unwrap().modular.transforms.clear();
+                }
+            }
+        }
+    }
+
     /// Rebuilds derived tables (prefix-code words) after deserialisation.
     pub fn rebuild(&mut self) {
         for f in self.frames.iter_mut().chain(self.preview.iter_mut().map(|b| &mut **b)) {
